@@ -642,7 +642,11 @@ pub async fn read_link(path: impl AsRef<Path>) -> io::Result<PathBuf> {
     .map(PathBuf::from)
 }
 
-pub async fn hard_link(_a: impl AsRef<Path>, _b: impl AsRef<Path>) -> io::Result<()> {
-    crate::kernel::note_unsupported("hard links");
-    Err(io::Error::new(io::ErrorKind::Unsupported, "hard links are not simulated"))
+pub async fn hard_link(a: impl AsRef<Path>, b: impl AsRef<Path>) -> io::Result<()> {
+    let (a, b) = (pstr(a.as_ref()), pstr(b.as_ref()));
+    aop(OpKind::Link, true, move |st, rec| {
+        let pid = rec.pid;
+        st.sys_link(pid, &a, &b, rec)
+    })
+    .await
 }
